@@ -518,6 +518,14 @@ func checkRemarksLen(remarks string) string {
 }
 
 func extractAddressInfos(pkScript []byte) (scriptClass txscript.ScriptClass, recipient, staking, binding string, reqSigs int, err error) {
+	defer func() {
+		// txscript.ExtractPkScriptAddrs dereferences a nil address for a multisig script with a
+		// public key that does not parse; a client-supplied script must not take the server down
+		if r := recover(); r != nil {
+			scriptClass, recipient, staking, binding, reqSigs = 0, "", "", "", 0
+			err = fmt.Errorf("failed to extract addresses from output script: %v", r)
+		}
+	}()
 	scriptClass, addrs, _, reqSigs, err := txscript.ExtractPkScriptAddrs(pkScript, config.ChainParams)
 	if err != nil {
 		return 0, "", "", "", 0, err
